@@ -363,11 +363,14 @@ namespace chaiscript {
 
           Boxed_Value retval;
 
+          CHAISCRIPT_VERIF_EVENT("use?", &m_use_mutex, appendedpath, m_used_files.count(appendedpath) == 0 ? 0 : 1, 0, 0, "");
           if (m_used_files.count(appendedpath) == 0) {
             l2.unlock();
+            CHAISCRIPT_VERIF_EVENT("use!", &m_use_mutex, appendedpath, 0, 0, 0, "");
             retval = eval_file(appendedpath);
             l2.lock();
             m_used_files.insert(appendedpath);
+            CHAISCRIPT_VERIF_EVENT("use=", &m_use_mutex, appendedpath, 0, 0, 0, "");
           }
 
           return retval; // return, we loaded it, or it was already loaded
@@ -442,6 +445,7 @@ namespace chaiscript {
 
       State s;
       s.used_files = m_used_files;
+      CHAISCRIPT_VERIF_EVENT("acc", &m_use_mutex, "used_files", 0, 0, 0, "");
       s.engine_state = m_engine.get_state();
       s.active_loaded_modules = m_active_loaded_modules;
       return s;
@@ -466,6 +470,7 @@ namespace chaiscript {
       chaiscript::detail::threading::shared_lock<chaiscript::detail::threading::shared_mutex> l2(m_mutex);
 
       m_used_files = t_state.used_files;
+      CHAISCRIPT_VERIF_EVENT("acc", &m_use_mutex, "used_files", 1, 0, 0, "");
       m_active_loaded_modules = t_state.active_loaded_modules;
       m_engine.set_state(t_state.engine_state);
     }
